@@ -26,6 +26,8 @@ type Opts struct {
 	MethodFilter func(name string) bool
 	// OnAvoid is called whenever a draw is actually steered away from a known-finding trigger.
 	OnAvoid func(key string)
+	// CrossEmbed lets interfaces embed interfaces of other source packages of the module.
+	CrossEmbed bool
 }
 
 func (o Opts) steered(k string) {
@@ -628,13 +630,39 @@ func Gen(t *rapid.T, o Opts) Module {
 	if len(m.Pkgs) == 0 {
 		m.Pkgs = append(m.Pkgs, Pkg{Dir: "svc", Name: "svc", Files: 1, Ifaces: []Iface{g.iface("Service", 0)}})
 	}
+	if o.CrossEmbed && !m.Unexp && len(m.Pkgs) > 1 {
+		// an interface of a later package embeds a plain interface of an earlier one: the
+		// promoted methods are rendered into two output files of the same run
+		for pi := 1; pi < len(m.Pkgs); pi++ {
+			for ii := range m.Pkgs[pi].Ifaces {
+				it := &m.Pkgs[pi].Ifaces[ii]
+				if it.InstOf != nil || len(it.Embeds) > 0 || g.intn("xembed", 0, 1) != 0 {
+					continue
+				}
+				tp := g.intn("xpkg", 0, pi-1)
+				var cands []string
+				for _, c := range m.Pkgs[tp].Ifaces {
+					if c.InstOf == nil && len(c.TParams) == 0 && len(c.Embeds) == 0 && len(c.XEmbeds) == 0 && len(c.Methods) > 0 {
+						cands = append(cands, c.Name)
+					}
+				}
+				if len(cands) == 0 {
+					continue
+				}
+				it.XEmbeds = []XRef{{Pkg: tp, Iface: g.pick("xiface", cands)}}
+			}
+		}
+		m.FixXEmbeds()
+	}
 	return m
 }
 
 // TemplateLocals are the identifiers the shipped templates themselves introduce inside a
 // generated method body.
 var TemplateLocals = map[string][]string{
-	"testify": {"ret", "_mock", "_m", "_c", "_e", "_va", "_ca", "args", "run", "returnFunc", "tmpRet", "r0", "r1", "ok", "variadicArgs", "mock", "i"},
+	"testify": {"ret", "_mock", "_m", "_c", "_e", "_va", "_ca", "_i", "args", "run", "returnFunc", "tmpRet", "r0", "r1", "ok", "variadicArgs", "mock", "i", "make", "len", "append"},
+	// the locals (and builtins) only the variadic preamble of the testify template uses
+	"testify-variadic": {"_va", "_ca", "_i", "tmpRet", "make", "len", "append", "variadicArgs"},
 	"matryer": {"mock", "callInfo", "calls", "lockGet", "ok", "i", "_", "r0"},
 }
 
@@ -650,7 +678,16 @@ func HostileLocals(t *rapid.T, m *Module, template string) int {
 			it := &m.Pkgs[pi].Ifaces[ii]
 			for mi := range it.Methods {
 				sg := &it.Methods[mi].Sig
-				if len(sg.Params) == 0 || rapid.IntRange(0, 2).Draw(t, "hostile-local") != 0 {
+				if len(sg.Params) == 0 {
+					continue
+				}
+				mpool := pool
+				if vp := TemplateLocals[template+"-variadic"]; sg.Variadic && len(vp) > 0 {
+					// variadic methods: always, and half of the time from the variadic-only locals
+					if rapid.Bool().Draw(t, "variadic-local") {
+						mpool = vp
+					}
+				} else if rapid.IntRange(0, 2).Draw(t, "hostile-local") != 0 {
 					continue
 				}
 				victim := rapid.IntRange(0, len(sg.Params)-1).Draw(t, "victim")
@@ -663,7 +700,7 @@ func HostileLocals(t *rapid.T, m *Module, template string) int {
 						break
 					}
 				}
-				name := rapid.SampledFrom(pool).Draw(t, "local")
+				name := rapid.SampledFrom(mpool).Draw(t, "local")
 				clash := name == "_"
 				for i, p := range sg.Params {
 					if i != victim && p.Name == name {
